@@ -10,6 +10,10 @@
 //! LineTerminator (12.2, 12.3).
 
 // ASSUME-FILE[assume]: none (full domain: all 256 bytes / all 2^16 code units / all usize index pairs).
+// ASSUME-FILE[stub]: `StaticJsStrings::get_string` (canonicalisation against the ~800-entry static-string table, a lazily built
+//   hash map CBMC cannot get through) is replaced by `None` = "not a well-known string".  Assumed contract: when it
+//   returns Some(s), s has the same code units as its argument.  A representation-dependence bug inside that table is
+//   NOT detected.
 // ASSUME-FILE[drop]: the slice result is forgotten (its drop glue walks the string vtables).
 // ASSUME-FILE[unwind]: loops over the 6 code units of the static base string "length".
 
@@ -80,6 +84,46 @@ fn c11_slice_indices_all_usize() {
     let i: usize = kani::any();
     kani::assume(i < want_len);
     assert!(r.as_str().get(i) == Some(units[p1 + i]));
+    std::mem::forget(r);
+}
+
+
+fn get_string_none(_string: &JsStr<'_>) -> Option<JsString> {
+    None
+}
+
+/// `JsString::concat` of two strings in any mix of representations = the concatenation of their code units
+/// (heap-allocated sequence string; Latin-1 buffer only when both operands are Latin-1).
+// BOUND: each operand at most 2 code units (all values, all four representation pairs)
+// FN: JsString::concat, JsString::concat_array, SequenceString::allocate
+#[kani::proof]
+#[kani::stub(crate::common::StaticJsStrings::get_string, get_string_none)]
+#[kani::unwind(7)]
+fn c11x_concat_units() {
+    let (ua, ub): ([u16; 2], [u16; 2]) = (kani::any(), kani::any());
+    let (na, nb): (usize, usize) = (kani::any(), kani::any());
+    kani::assume(na <= 2 && nb <= 2);
+    let la = [ua[0] as u8, ua[1] as u8];
+    let lb = [ub[0] as u8, ub[1] as u8];
+    let a_latin: bool = kani::any();
+    let b_latin: bool = kani::any();
+    if a_latin {
+        kani::assume(ua[0] <= 0xFF && ua[1] <= 0xFF);
+    }
+    if b_latin {
+        kani::assume(ub[0] <= 0xFF && ub[1] <= 0xFF);
+    }
+    let x = if a_latin { JsStr::latin1(&la[..na]) } else { JsStr::utf16(&ua[..na]) };
+    let y = if b_latin { JsStr::latin1(&lb[..nb]) } else { JsStr::utf16(&ub[..nb]) };
+    kani::cover!(a_latin && !b_latin && na == 2 && nb == 2);
+    kani::cover!(a_latin && b_latin && na == 1 && nb == 2);
+    let r = JsString::concat(x, y);
+    assert!(r.len() == na + nb);
+    let i: usize = kani::any();
+    kani::assume(i < na + nb);
+    let want = if i < na { ua[i] } else { ub[i - na] };
+    assert!(r.as_str().get(i) == Some(want));
+    assert!(r.as_str().is_latin1() == (a_latin && b_latin));
     std::mem::forget(r);
 }
 
